@@ -51,10 +51,18 @@ def _values():
                       min_size=1, max_size=4, unique=True)
     strs = st.lists(st.sampled_from(["QPSK", "16QAM", "x", "yy", "A b"]),
                     min_size=1, max_size=4, unique=True)
+    # distinct floats that are tiny or very close to each other (noise powers
+    # in Watts, ppm steps): equal only under a tolerance, not exactly
+    close = st.lists(st.sampled_from([1e-9, 1e-10, 1e-11, 1e-12, 3e-12, 1.0,
+                                      1.0000025, 1.000005, 1.0000075,
+                                      2.5, 2.5000000000000004]),
+                     min_size=2, max_size=4, unique=True)
     return st.one_of(st.tuples(st.just("list"), ints),
                      st.tuples(st.just("array"), ints),
                      st.tuples(st.just("array"), floats),
                      st.tuples(st.just("list"), floats),
+                     st.tuples(st.just("array"), close),
+                     st.tuples(st.just("list"), close),
                      st.tuples(st.just("list"), strs))
 
 
